@@ -72,6 +72,9 @@ fn writer(tier: &str) -> Vec<String> {
     for cap in [9, 16] {
         v.push(format!("clientflush:cap={}:depth={}", cap, if thorough { 6 } else { 5 }));
     }
+    for cap in [16, 512] {
+        v.push(format!("qflush:cap={}:prog={}WF:P=0", cap, "E".repeat(300)));
+    }
     for prog in ["EEWF", "EEF", "EFEF", "EEWFEF", "EWFEWF", "EEEF"] {
         for cap in [6, 16] {
             v.push(format!("qflush:cap={}:prog={}:P={}", cap, prog, if thorough { 4 } else { 3 }));
@@ -560,6 +563,11 @@ fn c12(tier: &str) -> Vec<String> {
         for cap in [6, 7] {
             v.push(format!("mutex:sink=spy:q=1:via=sink:cap={}:prog={}", cap, prog));
         }
+    }
+    // a long backlog in front of the buffered sink (canonical schedule: the client runs first)
+    for cap in [16, 512] {
+        v.push(format!("qflush:cap={}:prog={}WF:P=0", cap, "E".repeat(300)));
+        v.push(format!("qflush:cap={}:prog={}F{}WF:P=0", cap, "E".repeat(130), "E".repeat(70)));
     }
     // one client -> queuing sink -> buffered sink, flush racing the worker: order and conservation
     for prog in ["EEF", "EEEF", "EFEF", "EEFEF"] {
